@@ -35,6 +35,21 @@ Definition result_of (exited : option Z) : rview :=
   let ok := match exited with Some z => (z =? 0)%Z | None => false end in
   mkRv exited ok (negb ok) ok exited.
 
+(** * (c0) Runner._unify_kwargs_with_config, one boolean key *)
+(** for key, value in config.run.items():
+        runtime = kwargs.pop(key, None)
+        opts[key] = value if runtime is None else runtime
+    An omitted keyword and an explicit None are the same thing to this loop. *)
+Definition kw_runtime (kw : kwopt) : option bool :=
+  match kw with KwOmitted => None | KwNone => None | KwVal b => Some b end.
+Definition unify_opt (value : bool) (kw : kwopt) : bool :=
+  match kw_runtime kw with None => value | Some r => r end.
+(** Config.global_defaults: run.warn = False *)
+Definition default_warn : bool := false.
+(** opts["warn"] of the call *)
+Definition opts_warn (ws : warn_src) : bool :=
+  unify_opt (match ws_cfg ws with Some b => b | None => default_warn end) (ws_kw ws).
+
 (** * (c) Runner._finish after the threads are joined *)
 (** [thread_excs] / [watcher_errs]: how many worker threads ended with a
     non-watcher / watcher exception; [timeout_set]: opts["timeout"] is not
@@ -87,4 +102,19 @@ Definition program_run (e : prog_event) : prog_out :=
   | PParseError => PSysExit 1
   | PKeyboardInterrupt => PSysExit 1
   | POtherException => PPropagates
+  end.
+
+(** Program.update_config: -w / --warn-only puts run.warn = True into the
+    overrides level, above whatever the collection / files configure. *)
+Definition program_cfg_warn (flag : bool) (cfg : option bool) : option bool :=
+  if flag then Some true else cfg.
+
+(** Program.run on a task whose body is c.run("exit <code>", warn=<kw>) (a real
+    child, nothing else going wrong) *)
+Definition program_task_run (flag : bool) (cfg : option bool) (kw : kwopt) (code : Z) : prog_out :=
+  match finish 0 0 false false (Some code) (opts_warn (mkWs (program_cfg_warn flag cfg) kw)) with
+  | Return _ => program_run PSuccess
+  | Raise RUnexpectedExit (Some r) =>
+      match rv_exited r with Some x => program_run (PUnexpectedExit x) | None => PPropagates end
+  | _ => PPropagates
   end.
